@@ -161,7 +161,37 @@ async def check_tree(ctx, case):
     if sout[0] != "ok":
         ctx.violation(f"validation-raises-{type(sout[1]).__name__}", f"validate_segment_level({node['d']}) under {asg} {describe(sout)[:300]}")
         return
-    compare(ctx, f"validate_segment_level({node['d']}, soll_is_required={soll}) under {asg}", TB.summarise(sout[1]), sub_expected, case)
+    if not compare(ctx, f"validate_segment_level({node['d']}, soll_is_required={soll}) under {asg}", TB.summarise(sout[1]), sub_expected, case):
+        return
+    # ... and with an explicit parent status (all three), as the recursion itself calls them
+    from ahbicht.models.validation_values import RequirementValidationValue
+    from ahbicht.validation.validation import validate_segment, validate_segment_group
+
+    parent = rng.choice(["IS_REQUIRED", "IS_OPTIONAL", "IS_FORBIDDEN"])
+    parent_expr = {"IS_REQUIRED": {"parts": [["MUSS", "Muss", None, None]]}, "IS_OPTIONAL": {"parts": [["KANN", "Kann", None, None]]}, "IS_FORBIDDEN": {"parts": [["MUSS", "Muss", ["rc", "6"], "[6]"]]}}[parent]
+    fake = [{"k": "G", "d": "__root__", "x": parent_expr, "grps": [node] if node["k"] == "G" else [], "segs": [node] if node["k"] == "S" else []}]
+    try:
+        with_parent = RV.ref_validate(fake, dict(asg, **({"6": "U"} if parent == "IS_FORBIDDEN" else {})), soll)[1:]
+    except RV.ExpectNotImplemented:
+        return
+    if parent == "IS_FORBIDDEN":
+        # called directly below a forbidden parent the node itself is reported forbidden and nothing below it
+        with_parent = [(node["d"], "IS_FORBIDDEN", None, None)]
+    obj2 = TB.build_group(node) if node["k"] == "G" else TB.build_segment(node)
+
+    async def go_parent():
+        E.set_world(world)
+        fn = validate_segment_group if node["k"] == "G" else validate_segment
+        return await fn(obj2, RequirementValidationValue(parent), soll)
+
+    pout = await sched.run_under(sched.Sched(sched.RandomChooser(rng)), go_parent)
+    ctx.evaluation()
+    ctx.count("calls_with_explicit_parent_status")
+    ctx.count("explicit_parent:" + parent)
+    if pout[0] != "ok":
+        ctx.violation(f"validation-raises-{type(pout[1]).__name__}", f"validate_segment{'_group' if node['k'] == 'G' else ''}({node['d']}, {parent}) under {asg} {describe(pout)[:300]}")
+        return
+    compare(ctx, f"validate_segment{'_group' if node['k'] == 'G' else ''}({node['d']}, parent {parent}, soll_is_required={soll}) under {asg}", TB.summarise(pout[1]), with_parent, case)
 
 
 async def check_sequence(ctx, case):
